@@ -253,12 +253,18 @@ class ResourcePeriodicallyUnavailable(ResourceConstraint):
                 for start_task_i, end_task_i in worker.get_busy_intervals():
                     resource_assigned = True
                     duration = end_task_i - start_task_i
+                    folded_start_task_i = (start_task_i - self.offset) % self.period
                     conds = [
-                        z3.Xor(
-                            (start_task_i - self.offset) % self.period
-                            >= interval_upper_bound,
-                            (start_task_i - self.offset) % self.period + duration
-                            <= interval_lower_bound,
+                        z3.Or(
+                            # the folded task ends before the time interval starts
+                            folded_start_task_i + duration <= interval_lower_bound,
+                            # or it starts after the time interval and ends before
+                            # the same time interval of the next period starts
+                            z3.And(
+                                folded_start_task_i >= interval_upper_bound,
+                                folded_start_task_i + duration
+                                <= interval_lower_bound + self.period,
+                            ),
                         )
                     ]
 
@@ -508,9 +514,13 @@ class ResourcePeriodicallyInterrupted(ResourceConstraint):
                     else:
                         # ...otherwise make sure the task does not overlap with any of time intervals
                         conds.append(
-                            z3.Xor(
-                                folded_start_task_i >= interval_upper_bound,
+                            z3.Or(
                                 folded_start_task_i + duration <= interval_lower_bound,
+                                z3.And(
+                                    folded_start_task_i >= interval_upper_bound,
+                                    folded_start_task_i + duration
+                                    <= interval_lower_bound + self.period,
+                                ),
                             )
                         )
 
